@@ -2,7 +2,9 @@ from vlib.common import nt_len, NOTE, SCHED_TRUSTED
 
 _COQ = ["Common/ListLemmas.v", "Keyed/Model.v", "Keyed/Spec.v", "Keyed/Proofs.v"]
 _MON = ["Keyed/ProofsCancel.v", "Keyed/ProofsWalk.v", "Keyed/ProofsMono.v", "Keyed/ProofsData.v", "Keyed/ProofsKeys.v", "Keyed/ProofsRoot.v",
-        "Keyed/ProofsMon.v", "Keyed/ProofsMon2.v", "Keyed/ProofsInc.v", "Keyed/ProofsMonAll.v"]
+        "Keyed/ProofsMon.v", "Keyed/ProofsMon2.v", "Keyed/ProofsInc.v", "Keyed/ProofsMonAll.v",
+        "Keyed/ProofsWalk2.v", "Keyed/ProofsTimers.v", "Keyed/ProofsRef.v", "Keyed/ProofsReset.v", "Keyed/ProofsRefSim.v", "Keyed/ProofsKI.v",
+        "Keyed/ProofsRefStep.v", "Keyed/ProofsGone.v", "Keyed/ProofsRefs.v", "Keyed/ProofsMonAll2.v"]
 _RULE = ("implementation-driven random gate-level histories of keyed.Keyed and keyed.KeyedRefCount over 2-3 keys (SetKey/RemoveKey/"
          "SyncKeys with duplicates/GetKey/GetKeys, AddKeyRef/Release in two segments (a third one if the call is found outside rc.mtx before "
          "Keyed.RemoveKey: gate 5, then raced against AddKeyRef of the same key)/KeyedRefCount.RemoveKey, Reset/Restart of one or all "
@@ -68,7 +70,7 @@ _ASSUME = ["Go map iteration order is unobservable: the model iterates in key or
 _TECH = "Coq inductive invariants and refinement over a gate-level interleaving model + schedule-controlled differential correspondence (synctest, fake clock) against the Go code"
 
 _C06 = _COQ + ["Keyed/AbsSpec.v", "Keyed/ProofsC06.v", "Keyed/ProofsTm.v", "Keyed/ProofsC06b.v", "Keyed/ProofsC07.v"] + _MON + ["Keyed/Props_C06.v"]
-_C07 = _COQ + ["Keyed/AbsSpec.v", "Keyed/ProofsC06.v", "Keyed/ProofsTm.v", "Keyed/ProofsC07.v"] + _MON + ["Keyed/Props_C07.v"]
+_C07 = _COQ + ["Keyed/AbsSpec.v", "Keyed/ProofsC06.v", "Keyed/ProofsTm.v", "Keyed/ProofsC06b.v", "Keyed/ProofsC07.v"] + _MON + ["Keyed/Props_C07.v"]
 
 PROPS = {
     "C06": dict(pid=6, coq=_C06, props_file="Keyed/Props_C06.v", models=_MODELS, trusted=_TRUSTED, assumptions=_ASSUME,
